@@ -318,16 +318,16 @@ def parse_verus(assembled, crate, cmd, rc, out, err, wall, path):
 
 
 _FN_RE = re.compile(r'\bfn\s+([A-Za-z_][A-Za-z0-9_]*)')
+_IMPL_RE = re.compile(r'(?m)^[ \t]*impl\b(?:\s*<[^{]*?>)?\s*(?:[A-Za-z_][\w:]*(?:<[^{]*?>)?\s+for\s+)?([A-Za-z_][A-Za-z0-9_]*)')
 
 
 def _function_spans(text):
-    """(byte_start, name) of each `fn` keyword in the unit, for attributing diagnostics."""
-    from rsx import mask
+    """(byte_start, qualified name) of each `fn` keyword in the unit, for attributing
+    diagnostics.  Functions inside `impl X {..}` / `impl T for X {..}` are named `X::f`."""
+    from rsx import mask, next_open_brace, match_brace
     m = mask(text)
-    res = []
-    # compute byte offsets: text may contain non-ascii only in comments; map char->byte lazily
-    enc_prefix = [0]
     if any(ord(c) > 127 for c in text):
+        enc_prefix = [0]
         acc = 0
         for ch in text:
             acc += len(ch.encode('utf-8'))
@@ -335,8 +335,28 @@ def _function_spans(text):
         tobyte = lambda i: enc_prefix[i]
     else:
         tobyte = lambda i: i
+    impls = []
+    for mm in _IMPL_RE.finditer(m):
+        ob = next_open_brace(m, mm.end())
+        if ob < 0:
+            continue
+        try:
+            cb = match_brace(m, ob)
+        except Exception:
+            continue
+        impls.append((ob, cb, mm.group(1)))
+    res = []
     for mm in _FN_RE.finditer(m):
-        res.append((tobyte(mm.start()), mm.group(1)))
+        q = mm.group(1)
+        for (ob, cb, ty) in impls:
+            if ob < mm.start() < cb:
+                q = ty + '::' + q
+                break
+        # the item starts at its qualifiers (`pub open spec fn ..`), not at the `fn` keyword
+        head = m[max(0, mm.start() - 120):mm.start()]
+        qm = re.search(r'((?:pub(?:\s*\([^)]*\))?\s+)?(?:(?:const|open|closed|broadcast|proof|spec|exec|uninterp|unsafe)\s+)*)$', head)
+        st = mm.start() - (len(qm.group(1)) if qm else 0)
+        res.append((tobyte(st), q))
     return res
 
 
